@@ -40,6 +40,69 @@ def runs(p):
     return refdiff(q)
 
 
+def _open_before(W, S, DENS, n):
+    """windows open when item number n (0-based) arrives: starts st = k*S with st < n < st + W, as (slot, start) in opening order"""
+    lo = max(0, n - W + 1)
+    lo += (-lo) % S
+    return [((st // S) % DENS, st) for st in range(lo, n, S) if st + W > n]
+
+
+def _exp_next(W, S, DENS, n, x):
+    exp = []
+    cur = _open_before(W, S, DENS, n)
+    if n % S == 0:
+        slot = (n // S) % DENS
+        exp.append(('c', slot))
+        cur.append((slot, n))
+    for slot in range(DENS):
+        for (sl, st) in cur:
+            if sl == slot:
+                exp.append(('n', x))
+                if n - st + 1 == W:
+                    exp.append(('d', slot))
+    return exp
+
+
+def _exp_complete(W, S, DENS, n):
+    return [('d', slot) for (slot, st) in _open_before(W, S, DENS, n)]
+
+
+def _confirm_public(W, S, n, x, event):
+    """A failure of a one-step obligation is only reported if the real operator, run through the public API from an empty key for n items, deviates too:
+    item number n (value x) or the completion after n items, then - so that a damaged post-state shows - one more turn of the ring plus a window of items
+    and the completion.  Otherwise the failure is an artefact of the pre-state this harness wrote into the store (the representation is free to change)."""
+    import rxsci as rs
+    from rx.subject import Subject
+    from vp.harness import Inconclusive
+    if n > 2 ** 18:
+        raise Inconclusive('one-step counterexample at item %d: too long a stream to confirm through the public API' % n)
+    DENS = -(-W // S)
+    events = []
+    store = rs.state.StoreManager(store_factory=rs.state.MemoryStore)
+    src = Subject()
+    tapop = rs.ops.do_action(on_next=lambda i: events.append(('n', i)), on_create=lambda k: events.append(('c', k[0])), on_completed=lambda k: events.append(('d', None if k is None else k[0])))
+    src.pipe(rs.cast_as_mux_observable(), rs.state.with_store(store, [rs.data.roll(W, S, [tapop])])).subscribe(on_error=lambda e: events.append(('ERR', repr(e))))
+    src.on_next(rs.OnCreateMux((0,), store=store))
+    for j in range(n):
+        src.on_next(rs.OnNextMux((0,), 0, store=store))
+    del events[:]
+    if event == 'complete':
+        src.on_next(rs.OnCompletedMux((0,), store=store))
+        if events == _exp_complete(W, S, DENS, n):
+            raise Inconclusive('pre-state artefact: run from an empty key for %d items, the real roll completes as expected' % n)
+        return
+    exp = []
+    more = S * DENS + W
+    for j in range(more + 1):
+        v = x if j == 0 else j
+        src.on_next(rs.OnNextMux((0,), v, store=store))
+        exp += _exp_next(W, S, DENS, n + j, v)
+    src.on_next(rs.OnCompletedMux((0,), store=store))
+    exp += _exp_complete(W, S, DENS, n + more + 1)
+    if events == exp:
+        raise Inconclusive('pre-state artefact: run from an empty key for %d items, the real roll behaves as expected on item %d and the %d after it' % (n, n, more))
+
+
 def _calibrate(W, S, DENS, rr):
     """the one-step form presets the store through knowledge of roll's state representation (state 0 = item counter, state 1 = ring of window starts, slot
     (start / stride) mod density).  Before judging, that knowledge is checked against the real operator run concretely for rr items from an empty key; if the
@@ -74,6 +137,7 @@ def step(p):
     import rxsci as rs
     from rx.subject import Subject
     from vp.harness import mk, fail
+    from vp import harness
     W, S, event = p['w'], p['s'], p['event']
     DENS = -(-W // S)
     P = S * DENS
@@ -126,6 +190,8 @@ def step(p):
             for slot in range(DENS):
                 if store.get_state(1, (slot, (0,))) != after.get(slot, -1):
                     ok = False
+            if not ok and harness.CONCRETE[0]:
+                _confirm_public(W, S, n, x, 'next')
             return ok or fail(w=W, s=S, n=n, observed=events, expected=exp, counter_after=store.get_state(0, (0,)))
         src.on_next(rs.OnCompletedMux((0,), store=store))
         exp = [('d', slot) for (slot, st) in exp_open]      # exp_open is built in increasing start order = opening order
@@ -133,6 +199,8 @@ def step(p):
         for slot in range(DENS):
             if store.get_state(1, (slot, (0,))) != -1:
                 ok = False
+        if not ok and harness.CONCRETE[0]:
+            _confirm_public(W, S, n, x, 'complete')
         return ok or fail(w=W, s=S, n=n, event='complete', observed=events, expected=exp)
     return mk('roll_step', [('q', 'int'), ('r', 'int'), ('x', 'int')], ['q >= 0', '0 <= r < %d' % P, '-2**40 <= x <= 2**40'], body)
 
@@ -142,6 +210,7 @@ def step_count(p):
     import rxsci as rs
     from rx.subject import Subject
     from vp.harness import mk, fail
+    from vp import harness
     W, event = p['w'], p['event']
 
     def body(a):
@@ -162,10 +231,16 @@ def step_count(p):
             src.on_next(rs.OnNextMux((0,), x, store=store))
             exp = ([('c', 0)] if c == 0 else []) + [('n', x)] + ([('d', 0)] if c + 1 == W else [])
             want = 0 if c + 1 == W else c + 1
-            return (events == exp and store.get_state(0, (0,)) == want) or fail(w=W, count=c, observed=events, expected=exp, count_after=store.get_state(0, (0,)))
+            ok = events == exp and store.get_state(0, (0,)) == want
+            if not ok and harness.CONCRETE[0]:
+                _confirm_public(W, W, c, x, 'next')
+            return ok or fail(w=W, count=c, observed=events, expected=exp, count_after=store.get_state(0, (0,)))
         src.on_next(rs.OnCompletedMux((0,), store=store))
         exp = [('d', 0)] if c > 0 else []
-        return events == exp or fail(w=W, count=c, event='complete', observed=events, expected=exp)
+        ok = events == exp
+        if not ok and harness.CONCRETE[0]:
+            _confirm_public(W, W, c, x, 'complete')
+        return ok or fail(w=W, count=c, event='complete', observed=events, expected=exp)
     return mk('roll_step_count', [('c0', 'int'), ('x', 'int')], ['0 <= c0 < %d' % W, '-2**40 <= x <= 2**40'], body)
 
 
